@@ -39,5 +39,6 @@ run C01 cubed/array_api/manipulation_functions.py 'bd if old > 1 else chunklen\(
 run C20 cubed/core/plan.py '    # args from primitive_op onwards are omitted' '    def __eq__(self, other):\n        return isinstance(other, Plan) and set(self.dag) == set(other.dag)\n\n    def __hash__(self):\n        return hash(self.array_names)\n\n    # args from primitive_op onwards are omitted' --only per-plan
 run C14 cubed/core/ops.py 'yield read_chunks, int_chunks' 'yield read_chunks, write_chunks' --only _rechunk_plan
 run C14 cubed/core/ops.py 'target_chunks_ = target_chunks if last_stage else write_chunks' 'target_chunks_ = write_chunks' --only _rechunk_plan
+run C13 cubed/core/plan.py 'self._num_tasks \+= primitive_op.num_tasks' 'self._num_tasks = max(self._num_tasks, primitive_op.num_tasks)' --only totals
 echo "selected=$n"
 exit $fail
